@@ -25,9 +25,9 @@ CHECKS = {
    note="Case is compared after upper-casing both sides and CRLF after normalising both sides, the weakest comparison that still accounts for every character. Only the main file's tokens are printed (as the property states).",
    ref="§5 C05"),
  "C06": dict(
-   technique="proptest over 9 project shapes run in sandboxed worker processes; crash/abort monitor + pass-state-digest cycle detector (hook) + output-or-diagnostic and span-validity predicates",
-   text="Generated projects (grammar programs with hostile trivia, character mutations, example-source fragments, extreme integers as directive/operator/option arguments, import graphs incl. cycles and missing files, mutually dependent segments, nested loops with edge-of-range branches, hostile names, nesting to depth 64) go through parse, codegen as `mos build`, merge/listing/symbols, format and codegen in the language server's analysis mode inside worker sub-processes. A panic, an abnormal worker exit, a repeated pass-state digest (deterministic proof of non-termination), 'neither output nor diagnostic' or a diagnostic span outside the project is a violation.",
-   note="A watchdog kill or reaching the pass bound without a digest repeat is reported as inconclusive, never as a violation; .loop/.align/bank-size arguments above 70000 and nesting deeper than 64 are excluded by construction (termination not decidable without a clock / unbounded recursion). Invalid UTF-8 file contents are only reachable through the CLI (covered by C04's CLI runs, not here).",
+   technique="proptest over 10 project shapes run in sandboxed worker processes; crash/abort monitor + pass-state-digest cycle detector (hook) + output-or-diagnostic and span-validity predicates",
+   text="Generated projects (grammar programs with hostile trivia, character mutations, example-source fragments, extreme integers as directive/operator/option arguments, import graphs incl. cycles and missing files, mutually dependent segments, nested loops with edge-of-range branches, operands within a few bytes of their limit, hostile names, nesting of every kind of block, parentheses, calls and configuration maps to 6000 levels and single expressions of up to 240000 terms) go through parse, codegen as `mos build`, merge/listing/symbols, format and codegen in the language server's analysis mode inside worker sub-processes. A panic, an abnormal worker exit, a repeated pass-state digest (deterministic proof of non-termination), 'neither output nor diagnostic' or a diagnostic span outside the project is a violation.",
+   note="A watchdog kill makes the run inconclusive (exit 2) unless every thread of the worker sleeps (a deadlock, which is a violation); reaching the pass bound without a digest repeat is inconclusive, never a violation; .loop/.align/bank-size arguments above 70000 are excluded by construction (termination not decidable without a clock). The coverage-guided target of the thorough tier stays below 48 levels of nesting and 4096 bytes. Invalid UTF-8 file contents are only reachable through the CLI (covered by C04's CLI runs, not here).",
    ref="§5 C06"),
  "C12": dict(
    technique="proptest over generated programs x trivia x formatter options; metamorphic oracle between input and formatted output (parse-clean, token skeleton, comment multiset/order, bytes and diagnostics)",
@@ -86,8 +86,8 @@ CHECKS = {
    ref="§5 C20"),
  "C14": dict(
    technique="proptest, model-based histories (vec of operations + interpreter) against a live `mos lsp` process; differential oracle: two freshly started servers given only the final buffers; liveness and well-formedness predicates on every response",
-   text="Histories of 1-80 operations (didOpen/didChange by single typed characters, line replacements, whole-text replacements, restore, didClose; on the main file, an imported file and a new file that is not on disk) interleaved with all 13 supported request kinds at 7 kinds of positions (incl. beyond end of line/file, inside multi-byte characters) in open, closed, non-project and non-existing documents. Every request must be answered with the process alive; every returned range must lie inside the current text of the document it names; semantic tokens must decode sorted, non-overlapping, non-empty, inside their line; after the history the last published diagnostics per file and a fixed battery of requests (documentSymbol, semanticTokens, codeLens, workspace/symbol, definition, references, highlight, hover, completion, prepareRename) must equal those of two fresh servers that receive only the final buffers (two, so that an answer that differs between identical fresh servers is reported as nondeterministic rather than blamed on the history).",
-   note="Unknown methods and malformed parameters are not sent (the property speaks of supported requests). A request that is not answered within 20 s is inconclusive, never a violation. Response order inside arrays is not compared (sets).",
+   text="Histories of 1-80 operations (didOpen/didChange by single typed characters, line replacements - among them lines with comments that span lines, non-BMP characters, and nesting or sums beyond what the parser accepts -, whole-text replacements, several changes in one notification, restore, didClose; on the main file, an imported file and a new file that is not on disk) interleaved with all 13 supported request kinds at 7 kinds of positions (incl. beyond end of line/file, inside multi-byte characters) in open, closed, non-project and non-existing documents. Every request must be answered with the process alive; every returned range must lie inside the current text of the document it names; semantic tokens must decode sorted, non-overlapping, non-empty, inside their line; after the history the last published diagnostics per file and a fixed battery of requests (documentSymbol, semanticTokens, codeLens, workspace/symbol, definition, references, highlight, hover, completion, prepareRename) must equal those of two fresh servers that receive only the final buffers (two, so that an answer that differs between identical fresh servers is reported as nondeterministic rather than blamed on the history).",
+   note="Unknown methods, malformed parameters and documents that are not files are sent too (any answer, also an error response, counts). A request that is not answered within 20 s is inconclusive, unless every thread of the server sleeps without having used CPU time between two samples (a deadlock: violation). Response order inside arrays is not compared (sets).",
    ref="§5 C14"),
  "C19": dict(
    technique="proptest, model-based request sequences with generated delays against a live debug session (DAP over TCP on the test runner); oracle: reference trace of the uninterrupted run (emulator_6502 driven directly, image and line table from the independent layout model), located through the cycle counter the adapter reports",
@@ -97,12 +97,12 @@ CHECKS = {
  "C15": dict(
    technique="proptest over generated programs x one identifier occurrence; oracle: static binding model (documented scoping, validated against the build through the layout model) for the exact edit set, metamorphic build comparison before/after the rename, round trip (rename back)",
    text="For a generated error-free program and one generated identifier occurrence (definition or any component of a use path) a live language server is asked to rename it to a fresh name; where prepareRename offers it, the WorkspaceEdit must touch exactly the occurrences bound to that symbol (none of `super`, equally named symbols, other text), the edited program must assemble to identical bytes and diagnostics, and a second rename back to the old name must restore the original text.",
-   note="Single-file programs (imports with `as` are not generated yet). Occurrences in code the assembler never emits (zero-count loops, uninvoked macros) are optional in the expected edit set. New names are fresh only.",
+   note="A second campaign renames in two-file projects (every form of `.import`, a library imported twice; a rename requested at an alias is held to the build comparison only). Occurrences in code the assembler never emits (zero-count loops, uninvoked macros) are optional in the expected edit set. New names are fresh only. Programs end in tests that refer to their symbols; one case in three has comments (also non-BMP characters) between the tokens, positions are exchanged in UTF-16 code units.",
    ref="§5 C15"),
  "C16": dict(
    technique="proptest over generated programs; oracle: static binding model of the documented scoping rule, anchored to the build by requiring byte-for-byte agreement of the image with the reference layout model",
    text="Every path component of every identifier use in a generated program is sent to textDocument/definition of a live server and must lead to exactly the definition the scoping rule binds it to; for every label/constant/variable definition textDocument/references (with and without declaration) and documentHighlight must equal exactly the set of occurrences bound to it.",
-   note="The binding oracle is the one the build used: programs are only judged when the assembled image equals the reference model's image, whose operand values come from the same binding. Uses in never-emitted code and `super` components are not judged. Single-file programs.",
+   note="The binding oracle is the one the build used: programs are only judged when the assembled image equals the reference model's image, whose operand values come from the same binding. Uses in never-emitted code and `super` components are not judged. A second campaign navigates two-file projects from every occurrence in both files. Programs end in tests that refer to their symbols; one case in three has comments (also non-BMP characters) between the tokens, positions are exchanged in UTF-16 code units.",
    ref="§5 C16"),
 }
 
